@@ -1,17 +1,17 @@
 SPECIFICATION GenSpec
 CONSTANTS
   Svcs = {"a", "b", "c"}
-  Cap = 2
+  Cap = 1
   MaxOps = 4
   MaxFails = 1
-  FixEnqueue = FALSE
-  FixBatch = FALSE
+  FixEnqueue = TRUE
+  FixBatch = TRUE
   LossySend = FALSE
   HasKeepalive = TRUE
-  DirectCalls = TRUE
-  MaxMsgLen = 1
-  AsyncApply = FALSE
+  DirectCalls = FALSE
+  MaxMsgLen = 3
+  AsyncApply = TRUE
   Eager = TRUE
 VIEW GenView
-INVARIANTS TrapOutOfSync
+INVARIANTS TrapSetDiffers
 CHECK_DEADLOCK FALSE
